@@ -6,7 +6,7 @@
 (* rational (sum(remote) - sum(local)) / 60.  Trace_TimeSync validates      *)
 (* records of the real window against it.                                   *)
 (***************************************************************************)
-EXTENDS Integers, Sequences
+EXTENDS Integers, Sequences, F32
 
 Window == 30
 TS_New == [l |-> [i \in 0..Window-1 |-> 0], r |-> [i \in 0..Window-1 |-> 0]]
@@ -22,6 +22,8 @@ TS_AverageOK(ts, v) ==
   LET d == SumW(ts.r) - SumW(ts.l)
       e == Trunc(d, 2 * Window)
   IN v = e \/ (d # 0 /\ d % (2 * Window) = 0 /\ v = (IF d > 0 THEN e - 1 ELSE e + 1))
+
+TS_AverageF32(ts) == F32Average(SumW(ts.r), SumW(ts.l))
 
 \* with both windows filled by a steady lead k (local advantage -k, remote advantage +k) the
 \* average is exactly k; the two sides' averages are antisymmetric
